@@ -7,9 +7,12 @@ import (
 	"encoding/json"
 	"errors"
 	"fmt"
+	"runtime"
 	"runtime/debug"
 	"sort"
 	"strings"
+	"sync"
+	"sync/atomic"
 	"time"
 
 	"github.com/rs/zerolog"
@@ -68,6 +71,11 @@ var versions = map[string]map[string][]rdef{
 		"vc": {{"r1", "/w/:b", nil, false, false}},
 		// one rule with two routes on the same path expression
 		"vd": {{"r1", "/d/:a", nil, false, true}, {"r2", "/x", nil, false, false}},
+		// like v4 with a changed condition: every rule on /x is restricted to some methods and does not allow backtracking,
+		// so a POST must end in "no rule" whatever the history of the node (children owned by B, earlier values) was
+		"ve": {{"r1", "/x", []string{"GET", "HEAD"}, false, false}},
+		// the very same rule definition (id and content) as B's w7: a rule moved between (or copied to) sources
+		"vf": {{"s1", "/m", nil, false, false}},
 	},
 	"B": {
 		"w1": {{"q1", "/z", nil, false, false}},
@@ -75,15 +83,18 @@ var versions = map[string]map[string][]rdef{
 		"w3": {{"q1", "/x", nil, false, false}},
 		"w4": {{"q1", "/:p", []string{"POST"}, true, false}, {"q2", "/**", nil, false, false}},
 		"w5": {{"q1", "/w/:a/foo", nil, false, false}},
+		// an expression below A's /x (keeps the node alive when A's value is removed) next to a catch-all
+		"w6": {{"q1", "/x/k", nil, false, false}, {"q2", "/**", nil, false, false}},
+		"w7": {{"s1", "/m", nil, false, false}},
 	},
 }
 
 var verOrder = map[string][]string{
-	"A": {"v1", "v2", "v3", "v4", "v5", "v6", "v7", "v8", "v9", "va", "vb", "vc", "vd"},
-	"B": {"w1", "w2", "w3", "w4", "w5"},
+	"A": {"v1", "v2", "v3", "v4", "v5", "v6", "v7", "v8", "v9", "va", "vb", "vc", "vd", "ve", "vf"},
+	"B": {"w1", "w2", "w3", "w4", "w5", "w6", "w7"},
 }
 
-var probePaths = []string{"/x", "/y", "/z", "/zz", "/x/1", "/x/1/2", "/z/1", "/o", "/xy", "/w/1", "/w/1/foo", "/d/v", "/d/o"}
+var probePaths = []string{"/x", "/y", "/z", "/zz", "/x/1", "/x/1/2", "/z/1", "/o", "/xy", "/w/1", "/w/1/foo", "/d/v", "/d/o", "/x/k", "/m"}
 
 func ruleSet(src, ver string) *rulecfg.RuleSet {
 	rs := &rulecfg.RuleSet{Version: rulecfg.CurrentRuleSetVersion, Name: ver}
@@ -411,11 +422,11 @@ func Check() *engine.Check {
 	return &engine.Check{
 		ID:    "C06",
 		Level: "model_checking",
-		Rule: "explicit-state BFS over histories of add/update/delete on two sources (A: 10 versions incl. changed, reordered, removed, " +
-			"added rules, flipped backtracking, different node kinds, one invalid expression, one colliding with B; B: 4 versions incl. a collision " +
+		Rule: "explicit-state BFS over histories of add/update/delete on two sources (A: 15 versions incl. changed, reordered, removed, " +
+			"added rules, flipped backtracking, different node kinds, one invalid expression, one colliding with B; B: 7 versions incl. a collision " +
 			"with A and wildcard/catch-all sets) executed on the real rule-set processor + rule factory + repository; a state is de-duplicated by " +
 			"(current version per source, knownRules order, full structural dump of the radix tree incl. value order and backtracking flags); in " +
-			"every state 18 probe requests are compared with a fresh instance loaded once with the current versions (both source orders); after a " +
+			"every state 30 probe requests are compared with a fresh instance loaded once with the current versions (both source orders); after a " +
 			"rejected operation the structural dump and all probes must be unchanged.",
 		Assumptions: []string{
 			"mechanisms are scripted (always succeed); only matching is observed",
@@ -456,49 +467,93 @@ func run(c *engine.Ctx) {
 	for d := 1; d <= depth && len(frontier) > 0; d++ {
 		var next []node
 
+		// the successors of one level are independent executions on fresh instances: they are computed by a pool of
+		// workers and merged in enumeration order, so the result does not depend on the scheduling of the workers
+		type item struct {
+			hist   []Op
+			ok     bool
+			fp     string
+			cur    map[string]string
+			curKey string
+			probes []string
+		}
+
+		var items []*item
+
 		for _, n := range frontier {
-			if c.Expired() {
-				return
-			}
-
 			for _, op := range enabledOps(n.cur) {
-				hist := append(append([]Op{}, n.hist...), op)
-				w := guardedCheck(c, hist)
-
-				if w == nil {
-					// the operation (or a lookup after it) panicked: reported, the state is not expanded
-					c.Transitions(1)
-					c.Traces(1)
-					c.Eval(1)
-
-					continue
-				}
-
-				c.Transitions(1)
-				c.Traces(1)
-				c.Eval(1)
-
-				fp := w.fingerprint()
-				if seen[fp] {
-					continue
-				}
-
-				seen[fp] = true
-
-				c.States(1)
-				c.Nontrivial(fp)
-
-				if c.WantSample() && d >= 3 {
-					c.Sample(map[string]any{"history": fmt.Sprint(hist), "current": w.curKey(), "probes": w.probe()})
-				}
-
-				cur := map[string]string{}
-				for k, v := range w.cur {
-					cur[k] = v
-				}
-
-				next = append(next, node{hist, cur})
+				items = append(items, &item{hist: append(append([]Op{}, n.hist...), op)})
 			}
+		}
+
+		var (
+			wg      sync.WaitGroup
+			cursor  atomic.Int64
+			expired atomic.Bool
+		)
+
+		for range runtime.GOMAXPROCS(0) {
+			wg.Add(1)
+
+			go func() {
+				defer wg.Done()
+
+				for {
+					i := int(cursor.Add(1)) - 1
+					if i >= len(items) || expired.Load() {
+						return
+					}
+
+					if c.Expired() {
+						expired.Store(true)
+
+						return
+					}
+
+					it := items[i]
+					if w := guardedCheck(c, it.hist); w != nil {
+						// only what the merge needs is kept, the instance itself is released
+						it.ok, it.fp, it.curKey, it.probes = true, w.fingerprint(), w.curKey(), w.probe()
+						it.cur = map[string]string{}
+
+						for k, v := range w.cur {
+							it.cur[k] = v
+						}
+					}
+				}
+			}()
+		}
+
+		wg.Wait()
+
+		if expired.Load() {
+			return
+		}
+
+		for _, it := range items {
+			c.Transitions(1)
+			c.Traces(1)
+			c.Eval(1)
+
+			if !it.ok {
+				// the operation (or a lookup after it) panicked: reported, the state is not expanded
+				continue
+			}
+
+			if seen[it.fp] {
+				continue
+			}
+
+			seen[it.fp] = true
+
+			c.States(1)
+			c.Nontrivial(it.fp)
+
+			if c.WantSample() && d >= 3 {
+				c.Sample(map[string]any{"history": fmt.Sprint(it.hist), "current": it.curKey, "probes": it.probes})
+			}
+
+			next = append(next, node{it.hist, it.cur})
 		}
 
 		c.Count(fmt.Sprintf("new_states_at_depth_%d", d), int64(len(next)))
